@@ -1,4 +1,5 @@
 """C15 — every sample lands in exactly one grid bin; index arithmetic; grid files round-trip."""
+import math
 from cvlib import fbits, bits_to_f, tok_val
 
 RULE = ("grids of 1-3 dimensions with random sizes 1..7, dyadic and generic lower boundaries/widths, mixed periodicity and "
@@ -6,7 +7,96 @@ RULE = ("grids of 1-3 dimensions with random sizes 1..7, dyadic and generic lowe
         "vector in a box one larger than the grid; full enumeration by incr; non-trivial = grid has >1 point; distinct by op text")
 
 
+def gen_hist(rng, tier):
+    """histogram bias on 1-2 injected scalar variables: edges, outside, run boundaries, stepZeroData"""
+    from cvscen import inj_cv, cfg, pos
+    n = 25 if tier == "quick" else 400
+    cases = []
+    for k in range(n):
+        nd = rng.randint(1, 2)
+        lo, hi, w, per, wc = [], [], [], [], []
+        conf = ""
+        for i in range(nd):
+            dy = rng.rand() < 0.7
+            wi = rng.choice([0.25, 0.5, 1.0]) if dy else rng.uniform(0.2, 1.5)
+            l = rng.dyadic(-4, 4, 2) if dy else rng.uniform(-4, 4)
+            nb = rng.randint(1, 6)
+            h = l + nb * wi
+            P = 0.0; c = 0.0
+            if rng.rand() < 0.3 and k % 8 == 0:
+                P = nb * wi if rng.rand() < 0.6 else nb * wi * 2
+                c = l + P / 2 if rng.rand() < 0.7 else rng.dyadic(-2, 2, 2)
+            lo.append(l); hi.append(h); w.append(wi); per.append(P); wc.append(c)
+            conf += inj_cv("x%d" % i, i, l, h, wi, P if P else None, c if P else None)
+        step0 = rng.rand() < 0.3
+        # custom grid block overriding any subset of {lowerBoundary, upperBoundary, width} (for all variables at once)
+        gridblock = ""; custom = []
+        if True:
+            from cvscen import num
+            # enumerate the subsets of overridden keys over the cases (k % 8; 0 = no custom block)
+            for bit, key in enumerate(("lowerBoundary", "upperBoundary", "width")):
+                if (k % 8) >> bit & 1:
+                    custom.append(key)
+            if custom:
+                for i in range(nd):
+                    if per[i]:
+                        continue   # keep periodic variables on their period-commensurate grid
+                    if "width" in custom:
+                        w[i] = w[i] * rng.choice([0.5, 2.0, 0.25])
+                    if "lowerBoundary" in custom:
+                        lo[i] = lo[i] - rng.randint(0, 3) * w[i]
+                    if "upperBoundary" in custom:
+                        hi[i] = hi[i] + rng.randint(0, 3) * w[i]
+                    # the interval need not be commensurate with the new width (the code then adjusts the upper
+                    # boundary); stay away from the rounding tie and from empty grids
+                    q = (hi[i] - lo[i]) / w[i]
+                    if q < 0.7 or 0.35 < q - math.floor(q) < 0.65:
+                        hi[i] = lo[i] + max(1, int(round(q))) * w[i]
+                        if "upperBoundary" not in custom:
+                            custom.append("upperBoundary")
+                gridblock = " histogramGrid {\n"
+                if "lowerBoundary" in custom:
+                    gridblock += "  lowerBoundary " + " ".join(num(x) for x in lo) + "\n"
+                if "upperBoundary" in custom:
+                    gridblock += "  upperBoundary " + " ".join(num(x) for x in hi) + "\n"
+                if "width" in custom:
+                    gridblock += "  width " + " ".join(num(x) for x in w) + "\n"
+                gridblock += " }\n"
+        lines = ["m.new %d" % nd, cfg(conf),
+                 cfg("histogram {\n name h\n colvars %s\n%s%s}\n" % (" ".join("x%d" % i for i in range(nd)), " stepZeroData on\n" if step0 else "", gridblock)),
+                 "M.hist h %d %d %s %s %s %s %s %s" % (1 if step0 else 0, nd, " ".join(str(i) for i in range(nd)),
+                     " ".join(map(fbits, lo)), " ".join(map(fbits, hi)), " ".join(map(fbits, w)),
+                     " ".join(map(fbits, per)), " ".join(map(fbits, wc)))]
+        nsteps = rng.randint(3, 25)
+        hist = []
+        for s_ in range(nsteps):
+            xs = []
+            for i in range(nd):
+                r = rng.rand()
+                if r < 0.35:
+                    x = lo[i] + rng.randint(-1, int(round((hi[i] - lo[i]) / w[i])) + 1) * w[i]
+                elif r < 0.85:
+                    x = rng.uniform(lo[i] - w[i], hi[i] + w[i])
+                else:
+                    x = rng.uniform(-30, 30)
+                xs.append(x)
+                lines.append(pos(i, rng.uniform(-1, 1), rng.uniform(-1, 1), x))
+            cont = s_ > 0 and rng.rand() < 0.15
+            lines.append("m.step cont" if cont else "m.step")
+            hist.append((xs, cont))
+            if rng.rand() < 0.2:
+                lines.append("h.dump h")
+        lines.append("h.dump h")
+        cases.append({"lines": lines, "meta": {"hist": True, "nd": nd, "lo": lo, "hi": hi, "w": w, "period": per, "wrap": wc,
+                                                "stepZero": step0, "custom": custom, "history": hist}, "nontrivial": nsteps > 1})
+    return cases
+
+
 def gen(rng, tier):
+    return gen_grid(rng, tier) + gen_hist(rng, tier)
+
+
+def gen_grid(rng, tier):
     n = 60 if tier == "quick" else 1200
     cases = []
     for k in range(n):
@@ -53,9 +143,11 @@ def gen(rng, tier):
 
 def distribution(cases):
     d = {"nd": {}, "periodic_dims": 0, "dyadic": 0}
+    d["histogram_cases"] = sum(1 for c in cases if c["meta"].get("hist"))
+    d["histogram_steps"] = sum(len(c["meta"]["history"]) for c in cases if c["meta"].get("hist"))
     for c in cases:
         m = c["meta"]
-        if "nd" not in m:
+        if "nd" not in m or m.get("hist"):
             continue
         d["nd"][m["nd"]] = d["nd"].get(m["nd"], 0) + 1
         d["periodic_dims"] += sum(m["per"]); d["dyadic"] += int(m["dyadic"])
@@ -67,7 +159,52 @@ def vals(out, ln, tag):
     return None if v is None else [tok_val(t)[1] for t in v]
 
 
+def oracle_hist(case, out):
+    """independent recount of the histogram from the fed history"""
+    import math
+    m = case["meta"]; viol = []
+    nd = m["nd"]
+    nx = [int(math.floor((m["hi"][i] - m["lo"][i]) / m["w"][i] + 0.5)) for i in range(nd)]
+    counts = {}
+    it = 0; first = True; total = 0
+    for xs, cont in m["history"]:
+        if first:
+            first = False; c = False
+        elif cont:
+            c = True
+        else:
+            it += 1; c = False
+        elig = (it > 0 and not c) or m["stepZero"]
+        if not elig:
+            continue
+        b = []
+        for i in range(nd):
+            x = xs[i]
+            if m["period"][i]:
+                P, wc = m["period"][i], m["wrap"][i]
+                x = x - math.floor((x - wc) / P + 0.5) * P
+            b.append(int(math.floor((x - m["lo"][i]) / m["w"][i])))
+        if all(0 <= b[i] < nx[i] for i in range(nd)):
+            a = 0
+            for i in range(nd):
+                a = a * nx[i] + b[i]
+            counts[a] = counts.get(a, 0) + 1; total += 1
+    last = max(k[0] for k in out) if out else 0
+    d = vals(out, last, "data")
+    if d is None or not all(isinstance(x, float) for x in d):
+        return ["histogram data not available"]
+    if abs(sum(d) - total) > 1e-9:
+        viol.append("sum of counts %r differs from the number of eligible in-range samples %d" % (sum(d), total))
+    else:
+        for a, v in enumerate(d):
+            if abs(v - counts.get(a, 0)) > 1e-9:
+                viol.append("bin %d holds %r, recount gives %d" % (a, v, counts.get(a, 0))); break
+    return viol
+
+
 def oracle(case, out):
+    if case["meta"].get("hist"):
+        return oracle_hist(case, out)
     viol = []
     L = case["lines"]
     g = None
